@@ -219,6 +219,9 @@ class SpecMixin:
     def spec_as_row(self, node, st, ctx):
         return SV(ROW, Val.ref(box(self.ev(node.args[0], st, ctx))))
 
+    def spec_as_obj_RdMol(self, node, st, ctx):
+        return SV(Obj("RdMol"), Val.ref(box(self.ev(node.args[0], st, ctx))))
+
     def spec_as_comp(self, node, st, ctx):
         """a row value read as a reference to a composition dictionary (str -> int)"""
         return SV(COMP, Val.ref(box(self.ev(node.args[0], st, ctx))))
